@@ -294,6 +294,10 @@ class Layouts:
                 return self.eval(r, shapes, args, tail_len)
             if path in ("<core::option::Option<T>>::ok_or", "<core::result::Result<T, E>>::ok", "<core::result::Result<T, E>>::map_err", "<core::option::Option<T>>::ok_or_else") and a:
                 return self.eval(a[0], shapes, args, tail_len)
+            if name in ("eq", "ne") and len(a) == 2 and (path.endswith(("core::cmp::PartialEq>::eq", "core::cmp::PartialEq>::ne")) or path in ("core::cmp::PartialEq::eq", "core::cmp::PartialEq::ne")):
+                x = self.eval(a[0], shapes, args, tail_len)
+                y = self.eval(a[1], shapes, args, tail_len)
+                return int((x == y) == (name == "eq"))
             if path in ("<core::result::Result<T, E>>::unwrap", "<core::result::Result<T, E>>::expect", "<core::option::Option<T>>::unwrap", "<core::option::Option<T>>::expect"):
                 v = self.eval(a[0], shapes, args, tail_len)
                 if v == ("ERR",):
